@@ -245,6 +245,17 @@ def py_oracle_C17(case):
     for l in case[1:]:
         if op_of(l) == "policy" and l.split(" -> ")[-1].strip() != exp:
             return False
+    # initial_capacity has no observable effect: the same history on the implementation built
+    # without it gives the same answers (lookups, iterations, policy)
+    if cfg.get("initcap") not in (None, "none", "-") and cfg.get("ctor") != "new" and len(case) > 1:
+        ops = [re.sub(r" initcap=\S+", "", op_of(case[0]))] + [op_of(l) for l in case[1:]]
+        other, _ = run_impl("\n".join(ops) + "\n", timeout=30)
+        oc = split_cases(other or "")
+        if not oc:
+            return False
+        pub = lambda tr: [l for l in tr[1:] if LOOKUP.match(op_of(l)) or op_of(l) == "policy"]
+        if pub(case) != pub(oc[0]):
+            return False
     return True
 
 
@@ -285,7 +296,62 @@ def py_oracle_C14(case):
     return True
 
 
-PY_ORACLES = {"C17": py_oracle_C17, "C14": py_oracle_C14}
+def py_oracle_C03(case):
+    """kind=inject only (other traces are judged by the driver's oracle): the refill epilogue.
+    After a phase with map steps injected into maintenance runs: once nothing is injected any more
+    and a quiescent snapshot shows the map empty and nothing queued, fresh
+    keys of weight 1, each inserted, enqueued and followed by a maintenance run, at most
+    `max_capacity` of them, fit in the room left and must all be resident."""
+    cfgl = op_of(case[0])
+    if " kind=inject " not in cfgl + " ":
+        return None
+    m = re.search(r" cap=(\d+) w=val ttl=none tti=none ", cfgl)
+    if not m:
+        return True
+    cap = int(m.group(1))
+    quiet, armed, inserted, stage, key = False, False, [], 0, None
+    holding = set()     # logical threads whose call has taken its map step but not sent its op yet
+    for l in case[1:]:
+        op = op_of(l)
+        w0 = op.split()
+        if w0 and w0[0] in ("pins", "pget") and len(w0) >= 3 and not l.rstrip().endswith("bad-op"):
+            holding.add(w0[1])
+        elif w0 and w0[0] == "pinv" and l.rstrip().endswith("-> held"):
+            holding.add(w0[1])
+        elif w0 and w0[0] == "penq" and len(w0) == 2:
+            holding.discard(w0[1])
+        if op == "noinject":
+            quiet = True
+            continue
+        if not quiet:
+            continue
+        if not armed:
+            # quiescent: every started call has completed, nothing is queued, the map is empty
+            # (the internal counters are not consulted)
+            if op == "snap" and not holding and re.search(r"\bwq=0\b", l) and " map= " in l:
+                armed = True
+            continue
+        w = op.split()
+        if stage == 0 and len(w) == 4 and w[0] == "pins" and w[1] == "0" and w[3] == "1" and l.rstrip().endswith("-> ok"):
+            key, stage = w[2], 1
+        elif stage == 1 and op == "penq 0" and l.rstrip().endswith("-> ok"):
+            stage = 2
+        elif stage == 2 and op == "sync":
+            if key in inserted:
+                return True          # not a fresh key: outside the pattern
+            inserted.append(key)
+            stage = 0
+        elif stage == 0 and op == "snap":
+            pass
+        elif stage == 0 and w[0] == "has" and len(w) == 2:
+            if w[1] in inserted and len(inserted) <= cap and not l.rstrip().endswith("-> true"):
+                return False
+        else:
+            return True              # anything else: the epilogue pattern is broken, nothing is owed
+    return True
+
+
+PY_ORACLES = {"C17": py_oracle_C17, "C14": py_oracle_C14, "C03": py_oracle_C03}
 
 
 def split_cases(text):
@@ -306,7 +372,7 @@ def op_of(line):
     return line.split(" -> ")[0].strip()
 
 
-LOOKUP = re.compile(r"^(get|has|iter)\b")
+LOOKUP = re.compile(r"^(get|has|iter|iterlag)\b")
 
 
 def project(line, mode):
